@@ -32,6 +32,8 @@ case "$FAKE_JAVA_MODE" in
     printf '%s\n' "Result: Invalid" >&2
     exit 2 ;;
   reject_rc255_empty) exit 255 ;;
+  reject_bytes) printf 'yyy bytes diagnostic 43 \201\215\217\220\235 \223\372\226\173\n' >&2; exit 1 ;;
+  ok_stderr_bytes) printf 'Warning: something about /data/q1 \201\215\217\220\235\n' >&2; exit 0 ;;
   reject_arbitrary) printf '%s\n' "zzz arbitrary <&> ]]> diagnostic 42" >&2; printf 'no newline at end' >&2; exit 3 ;;
   killed_term) kill -15 $$ ;;
   corrupt_jar) echo "Error: Unable to access jarfile /some/where/ODK_Validate.jar" >&2; exit 1 ;;
@@ -77,7 +79,7 @@ def msg_clean(message):
             and sum(1 for l in lines if "Problem at" in l) == 1 and "Result: Invalid" in message)
 
 
-CARRIED = {"reject": "Problem at", "reject_rc2": "Problem at", "reject_arbitrary": "zzz arbitrary <&> ]]> diagnostic 42", "corrupt_jar": "Unable to access jarfile"}
+CARRIED = {"reject_bytes": "yyy bytes diagnostic 43", "reject": "Problem at", "reject_rc2": "Problem at", "reject_arbitrary": "zzz arbitrary <&> ]]> diagnostic 42", "corrupt_jar": "Unable to access jarfile"}
 
 
 def execute(cfg, repo):
